@@ -626,6 +626,64 @@ func c08RPCHosts(driver string) vh.Unit {
 
 // a big pool: dozens of nodes of every variant, answering in every way; the reply still holds only
 // eligible hosts that acknowledged, never more than asked for or allowed
+// a node that registers again in the other role (full-node host <-> light client) while its
+// connection stays open: after every registration it is handed out iff its *latest* registration
+// was as a full-node host
+func c08RoleChanges() vh.Unit {
+	return vh.Unit{Name: "role-changes", Run: func(u *vh.U) {
+		cast := vh.StdCast()
+		x, other, asker := cast.ByName["H1"], cast.ByName["H2"], cast.ByName["C1"]
+		for _, driver := range vh.Drivers {
+			for mask := 0; mask < 32; mask++ { // five registrations, each as host (1) or client (0)
+				vsched.ResetClock(0)
+				pw := vh.NewPoolWorld(vh.PoolConfig{Driver: driver, NoManager: true})
+				if _, err := pw.Connect(other, vh.ConnectOpts{Host: true}); err != nil {
+					u.Violate("peers/setup", err.Error(), nil)
+					return
+				}
+				if _, err := pw.Connect(asker, vh.ConnectOpts{}); err != nil {
+					u.Violate("peers/setup", err.Error(), nil)
+					return
+				}
+				var roles []string
+				for step := 0; step < 5; step++ {
+					host := mask&(1<<step) != 0
+					roles = append(roles, map[bool]string{true: "host", false: "client"}[host])
+					vsched.Advance(time.Second)
+					// (always over the same, open connection)
+					if _, err := pw.Connect(x, vh.ConnectOpts{Host: host, Service: pw.Host(x.Name).Service(), NodeURI: "enode://" + x.NodeID + "@192.0.2.7:30303"}); err != nil {
+						u.Violate("peers/role-change-refused", fmt.Sprintf("%s registrations %v: %v", driver, roles, err), nil)
+						return
+					}
+					resp, err := pw.Peer(vh.CtxWith(pw.Host("asker").Service()), asker, 3, "")
+					u.R.Evaluations++
+					u.R.States++
+					u.R.Transitions++
+					u.R.Traces++
+					handed := false
+					if resp != nil {
+						for _, n := range resp.Peers {
+							if string(n.ID) == x.NodeID {
+								handed = true
+							}
+						}
+					}
+					u.Observe(fmt.Sprintf("role %v handed=%v", host, handed))
+					if handed != host {
+						cls := "non-host-returned"
+						if host {
+							cls = "registered-host-not-returned"
+						}
+						u.Violate("peers/"+cls, fmt.Sprintf("driver %s: node registered as %v over one open connection; after the last registration a request for 3 hosts returned it: %v (err=%v)", driver, roles, handed, err), nil)
+						return
+					}
+				}
+			}
+		}
+		u.Sample("all 32 role sequences of five registrations of one node over one connection, both drivers")
+	}}
+}
+
 func c08Wide(driver string, n int) vh.Unit {
 	name := fmt.Sprintf("wide-population/%s/x%d", driver, n)
 	return vh.Unit{Name: name, Run: func(u *vh.U) {
@@ -712,7 +770,7 @@ func init() {
 			if tier == "thorough" {
 				us = append(us, c08Wide(vh.Memory, 96))
 			}
-			us = append(us, c08BinaryMaxHosts())
+			us = append(us, c08BinaryMaxHosts(), c08RoleChanges())
 			return us
 		},
 	})
